@@ -203,8 +203,11 @@ def h03b_betdaq(c):
         market = fl._add_market(cm.MID, cm.book([cm.runner(1)], version=7))
         kind = c.choose("kind", ["place", "cancel", "update"])
         outcome = c.choose("api_outcome", ["ok", "error-code", "report-missing", "BetdaqError", "Exception"])
-        poll_before = c.choose("poll_before_answer", ["none", "Unmatched", "Unmatched-new-sequence", "Matched", "Cancelled"]) if kind != "place" else "none"
-        poll_after = c.choose("poll_after_answer", ["none", "Unmatched", "Unmatched-new-sequence", "Matched", "Cancelled", "Settled"])
+        poll_before = c.choose("poll_before_answer", ["none", "Unmatched", "Unmatched-new-sequence", "Suspended", "Suspended-new-sequence", "Matched", "Cancelled"]) if kind != "place" else "none"
+        poll_after = c.choose("poll_after_answer", ["none", "Unmatched", "Unmatched-new-sequence", "Suspended", "Suspended-new-sequence", "Matched", "Cancelled", "Settled"])
+        # an update may change the stake only: the requested price is then the order's own price, which every poll shows
+        new_price = c.choose("update_new_price", [2.5, None]) if kind == "update" else None
+        c.tag("new_price", new_price)
         c.tag("kind", kind); c.tag("outcome", outcome); c.tag("poll_before", poll_before); c.tag("poll_after", poll_after)
         tr = Trade(cm.MID, 1, 0, strategy)
         o = tr.create_betdaq_order("BACK", BetdaqLimitOrder(2.0, 10.0, 1, 0, 0), BetdaqOrder)
@@ -215,8 +218,13 @@ def h03b_betdaq(c):
                 seq[0] += 1
             co = {"order_id": o.bet_id or 777, "customer_reference": int(o.id), "status": status, "sequence_number": seq[0], "price": 2.0,
                   "matched_size": 10.0 if status in ("Matched", "Settled") else (4.0 if new_seq else 0.0),
-                  "remaining_size": 0.0 if status != "Unmatched" else (6.0 if new_seq else 10.0), "matched_price": 2.0}
+                  "remaining_size": 0.0 if status not in ("Unmatched", "Suspended") else (6.0 if new_seq else 10.0), "matched_price": 2.0}
+            was_complete = o.status == S.EXECUTION_COMPLETE
             fl._process_current_orders(events.CurrentOrdersEvent([co], exchange=ExchangeType.BETDAQ))
+            if status in ("Unmatched", "Suspended") and not was_complete:
+                # (C11 clause in the Betdaq world) the exchange reports the order live (resting, or held while the market is suspended)
+                c.ob("poll-reporting-the-order-live-does-not-complete-it", o.status != S.EXECUTION_COMPLETE, polled=status, after=o.status.name)
+                c.ob("poll-reporting-the-order-live-keeps-it-in-live-orders", o.id not in market.blotter or o in market.blotter.live_orders, polled=status)
 
         def answer(name):
             def f(**kw):
@@ -257,7 +265,7 @@ def h03b_betdaq(c):
                 elif kind == "cancel":
                     market.cancel_order(o, force=True)
                 else:
-                    market.update_order(o, size_delta=-2.0, new_price=2.5, force=True)
+                    market.update_order(o, size_delta=-2.0, new_price=new_price, force=True)
             if poll_after != "none":
                 with c.guard("poll"):
                     poll(poll_after.split("-")[0], new_seq=poll_after.endswith("new-sequence"))
@@ -271,7 +279,7 @@ def h03b_betdaq(c):
             if new == S.EXECUTION_COMPLETE:
                 seen = True
         # Betdaq: a successful update legitimately stays 'updating' until a poll with a new sequence number
-        if not (kind == "update" and outcome == "ok" and not poll_after.endswith("new-sequence") and poll_after not in ("Matched", "Cancelled", "Settled")):
+        if not (kind == "update" and outcome == "ok" and not poll_after.endswith("new-sequence") and poll_after not in ("Matched", "Cancelled", "Settled")):  # noqa
             if kind != "place" or outcome in ("ok", "error-code", "BetdaqError", "Exception"):
                 c.ob("ends-progressable", o.status in (S.EXECUTABLE, S.EXECUTION_COMPLETE) or (o.status == S.UPDATING and kind == "update" and outcome == "ok") or
                      (kind == "place" and outcome == "report-missing" and o.status == S.PENDING), status=o.status.name)
